@@ -284,6 +284,67 @@ Finished(x, what) ==
     /\ res' = [op |-> what, tx |-> x, snap |-> 0, rejected |-> {}]
     /\ UNCHANGED << root, wtx, snap, chan, iter >>
 
+\* ---------------------------------------------------------------- Derive
+\* statedb.Derive(In -> Out): a job of the library with its own change iterator i on In; every round is one write
+\* transaction on Out that applies the transformation to the changes of In since the last round and, once In is
+\* initialized, completes the initializer the job registered on Out.  The transformation of the harness
+\* (drv_db.go deriveTransform): by value modulo 4.
+DeriveKind(val, del) ==
+    IF val % 4 = 0 THEN "skip" ELSE IF del THEN "delete" ELSE IF val % 4 = 1 THEN "update" ELSE "insert"
+DeriveObj(pk, val) == [pk |-> pk, val |-> val, hasU |-> FALSE, u |-> << >>, tags |-> << >>, pfx |-> << >>,
+                       hasUp |-> FALSE, upfx |-> << >>]
+\* what iterator i has not been handed yet, in revision order: <<pk, val, rev, del>>
+PendingOf(i) ==
+    LET it == iter[i]
+        ts == root[it.t]
+        U == { << ts.objs[j].o.pk, ts.objs[j].o.val, ts.objs[j].rev, FALSE >> : j \in { k \in 1..Len(ts.objs) : ts.objs[k].rev > it.last } }
+        D == { << ts.grave[j].pk, ts.grave[j].val, ts.grave[j].rev, TRUE >> : j \in { k \in 1..Len(ts.grave) : ts.grave[k].rev > it.mark } }
+        RECURSIVE Sort(_)
+        Sort(S) == IF S = {} THEN << >>
+                   ELSE LET m == CHOOSE x \in S : \A y \in S : x[3] < y[3] \/ (x[3] = y[3] /\ (x[4] \/ ~y[4])) IN
+                        << m >> \o Sort(S \ {m})
+    IN Sort(U \cup D)
+RECURSIVE DeriveFold(_, _)
+DeriveFold(ts, cs) ==
+    IF cs = << >> THEN ts
+    ELSE LET c == Head(cs)
+             o == DeriveObj(c[1], c[2])
+             k == DeriveKind(c[2], c[4])
+             ts2 == CASE k = "insert" -> TInsert(ts, o).ts
+                      [] k = "update" -> IF HasPk(ts.objs, c[1]) THEN TInsert(ts, o).ts ELSE ts
+                      [] k = "delete" -> TDelete(ts, o).ts
+                      [] OTHER -> ts
+         IN DeriveFold(ts2, Tail(cs))
+
+DeriveStart(i, tin, tout) ==
+    /\ i \notin DOMAIN iter /\ tin \in Tables /\ tout \in Tables /\ tin # tout
+    /\ \A y \in DOMAIN wtx : wtx[y].st = "open" => wtx[y].tabs \cap {tin, tout} = {}
+    /\ root' = [root EXCEPT ![tin].trk = @ \cup {i}, ![tout].pend = Append(@, "derive")]
+    /\ iter' = (i :> [t |-> tin, crev |-> root[tin].rev, tx |-> 0, st |-> "open",
+                      last |-> 0, mark |-> root[tin].rev, replay |-> << >>, dels |-> {}, wrev |-> root[tin].rev]) @@ iter
+    /\ res' = [op |-> "derive", it |-> i, t |-> tin, t2 |-> tout]
+    /\ UNCHANGED << wtx, snap, chan >>
+
+\* the job has caught up with the committed state
+DeriveSync(i, tout) ==
+    /\ i \in DOMAIN iter /\ iter[i].st = "open" /\ tout \in Tables
+    /\ \A y \in DOMAIN wtx : wtx[y].st = "open" => wtx[y].tabs \cap {iter[i].t, tout} = {}
+    /\ LET cs == PendingOf(i)
+           it == iter[i]
+           t1 == DeriveFold(root[tout], cs)
+           t2 == IF root[it.t].pend = << >> THEN [t1 EXCEPT !.pend = SelectSeq(@, LAMBDA n : n # "derive")] ELSE t1
+           revs == { cs[j][3] : j \in 1..Len(cs) }
+           drevs == { cs[j][3] : j \in { k \in 1..Len(cs) : cs[k][4] } } IN
+       /\ root' = [root EXCEPT ![tout] = t2]
+       /\ chan' = AfterPublish(0, (tout :> t2))
+       /\ iter' = [iter EXCEPT ![i].replay = ReplayAll(it.replay, cs),
+                               ![i].wrev = root[it.t].rev,
+                               ![i].last = MaxOf(revs, it.last),
+                               ![i].mark = MaxOf(drevs \cup {it.mark}, it.mark),
+                               ![i].dels = @ \cup { << cs[j][1], cs[j][3] >> : j \in { k \in 1..Len(cs) : cs[k][4] } }]
+       /\ res' = [op |-> "derivesync", it |-> i, t2 |-> tout, n |-> Len(cs)]
+    /\ UNCHANGED << wtx, snap >>
+
 \* observation of the channel bits (model: the implementation closes C, a set that contains
 \* everything that must be closed and nothing that may not)
 MayClose(c) ==
